@@ -192,17 +192,20 @@ Definition close_if_idle (g : cfg) (c : nat) (s : state) : state :=
   | None => s
   end.
 
-(* GracefulConnectionDriver::poll with the watch closed *)
-Definition tell (g : cfg) (s : state) (c : nat) : state :=
+(* GracefulConnectionDriver::poll: poll the connection; if the watch is closed and the fused
+   shutdown future has not fired yet, call graceful_shutdown (once) and poll the connection again.
+   (ConnectionDriver::poll of a plain server is the same without the middle part.) *)
+Definition mark_told (s : state) (c : nat) : state :=
   match get c s with
-  | Some x => if live x && negb (c_told x)
-              then close_if_idle g c (emit (OTold c) (modc c w_told s))
-              else s
+  | Some x => if live x && negb (c_told x) then emit (OTold c) (modc c w_told s) else s
   | None => s
   end.
 
+Definition drive (g : cfg) (s : state) (c : nat) : state :=
+  close_if_idle g c (if watch_closed g s then mark_told s c else s).
+
 Definition drive_all (g : cfg) (s : state) : state :=
-  if watch_closed g s then fold_left (tell g) (seq 0 (length (s_conns s))) s else s.
+  fold_left (drive g) (seq 0 (length (s_conns s))) s.
 
 (* ---- the accept loop *)
 Definition finish (ok : bool) (s : state) : state := emit (OServer ok) (set_srv (SDone ok) s).
@@ -220,10 +223,18 @@ Fixpoint accept_loop (g : cfg) (q : list qent) (s : state) : state :=
       else set_srv SAccepting (set_queue [] s)                                  (* Pending *)
   | QDead :: q' => accept_loop g q' s                  (* ack fails: skipped (repaired D2) *)
   | QLive c :: q' =>
-      let s1 := emit (OAccept c) s in                  (* Ok io -> Making *)
-      if s_armed s1
-      then finish false (set_queue q' (set_armed false (modc c (w_ph Dropped) s1)))   (* Err MakeService *)
-      else accept_loop g q' (emit (OSpawn c) (modc c (spawn_ph g) s1))          (* Some conn: spawn; Preparing -> Accepting *)
+      match get c s with
+      | Some x =>
+          match c_ph x with
+          | Queued =>
+              let s1 := emit (OAccept c) s in              (* Ok io -> Making *)
+              if s_armed s1
+              then finish false (set_queue q' (set_armed false (modc c (w_ph Dropped) s1)))   (* Err MakeService *)
+              else accept_loop g q' (emit (OSpawn c) (modc c (spawn_ph g) s1))   (* Some conn: spawn; Preparing -> Accepting *)
+          | _ => accept_loop g q' s
+          end
+      | None => accept_loop g q' s
+      end
   end.
 
 (* Serving::poll / GracefulShutdown::poll *)
